@@ -39,6 +39,7 @@ def egTok : Tok := .ch 2 32
 
 inductive Err where
   | valueError | typeError | indexError | attributeError | hang | fuel
+  | unsupported      -- a situation the model does not follow (outside NF-prog): reported, never compared with the Spec
   deriving DecidableEq, Repr
 
 abbrev Params := List (Option (List Tok))
@@ -252,6 +253,8 @@ def readDefParts (s : List Tok) : Except Err DefParts :=
 inductive Prim where
   | def_ | gdef | newcommand | let_ | csname | endcsname | expandafter | relax
   | bgroup | egroup
+  | ifx              -- `\ifx`
+  | inert            -- a `Command` with the default `invoke` and no arguments (`\else`, `\fi`): its instance is yielded
   deriving DecidableEq, Repr
 
 inductive Meaning where
@@ -322,7 +325,8 @@ def prims : Frame :=
     (n "endcsname", .prim .endcsname (n "endcsname")), (n "expandafter", .prim .expandafter (n "expandafter")),
     (n "relax", .prim .relax (n "relax")), (n "bgroup", .prim .bgroup (n "bgroup")),
     (n "begingroup", .prim .bgroup (n "begingroup")), (n "egroup", .prim .egroup (n "egroup")),
-    (n "endgroup", .prim .egroup (n "endgroup")) ]
+    (n "endgroup", .prim .egroup (n "endgroup")),
+    (n "ifx", .prim .ifx (n "ifx")), (n "else", .prim .inert (n "else")), (n "fi", .prim .inert (n "fi")) ]
 
 def initEnv : Env := [prims]
 
@@ -364,6 +368,89 @@ def digitsVal (ts : List Tok) : Option Nat :=
 /-- the nodeName of the element a token becomes when `\expandafter`/`\csname` meet it unexpanded -/
 def endcsnameName : Name := [101, 110, 100, 99, 115, 110, 97, 109, 101]
 
+/-! ## `\ifx` (Primitives.ifx, `XTok` arguments, `TeX.processIfContent`) -/
+
+/-- what an `XTok` argument evaluates to inside NF-prog 4: one token, or the children of the fragment `expandTokens` returns -/
+inductive IfVal where
+  | tok (t : Tok)
+  | frag (ts : List Tok)
+  deriving DecidableEq, Repr
+
+def plainChar : Tok → Bool
+  | .ch 11 _ => true
+  | .ch 12 _ => true
+  | _ => false
+
+/-- `if len(toks) == 1: return toks[0]` else the fragment -/
+def ifValOf (ts : List Tok) : IfVal := match ts with | [x] => .tok x | b => .frag b
+
+/-- `expandTokens([t])` for a character token, or for a macro without parameters whose text is plain characters;
+    everything else (macros with arguments, other primitives, nested macros) is outside NF-prog 4 and not followed -/
+def xtokOfTok (env : Env) (t : Tok) : Except Err IfVal :=
+  match t with
+  | .ch cat c => if cat = 11 ∨ cat = 12 then .ok (.tok (.ch cat c)) else .error .unsupported
+  | .cs n =>
+    match lookup n env with
+    | some (.defn [] body) => if (body.getD []).all plainChar then .ok (ifValOf (body.getD [])) else .error .unsupported
+    | _ => .error .unsupported
+  | .el _ => .error .unsupported
+
+/-- one `XTok` argument: optional blanks, then a token or a brace group (the group `expandDef` puts around a parameter
+    that follows `\ifx`), expanded -/
+def readXTok (env : Env) (s : List Tok) : Except Err (IfVal × List Tok) :=
+  match dropSpaces s with
+  | [] => .error .unsupported
+  | t :: ts =>
+    if t.isBg then
+      let r := readGroup 1 ts
+      match r.1 with
+      | [x] => (xtokOfTok env x).map (·, r.2)
+      | c => if c.all plainChar then .ok (ifValOf c, r.2) else .error .unsupported
+    else (xtokOfTok env t).map (·, ts)
+
+/-- `a['a'] == a['b']`: tokens by category and character, fragments child by child (and by length) -/
+def ifValEq : IfVal → IfVal → Bool
+  | .tok a, .tok b => a == b
+  | .frag a, .frag b => a == b
+  | _, _ => false
+
+/-- `macroName` of anything that can travel in the token stream -/
+def anyMacroName : Tok → Name
+  | .cs n => n
+  | .el n => n
+  | .ch 1 _ => [98, 103, 114, 111, 117, 112]
+  | .ch 2 _ => [101, 103, 114, 111, 117, 112]
+  | _ => []
+
+def startsWithIf : Name → Bool
+  | 105 :: 102 :: _ => true
+  | _ => false
+
+/-- the scan of `processIfContent`: `nest` = nesting, `cur` = the case being collected (reversed), `done` = finished cases
+    (reversed).  Any macro whose name starts with `if` opens a level (O4), `\fi` closes one, `\else`/`\or` at level 0 start
+    a new case, `\newif` swallows the next token.  Result: the cases in order, and the input after the closing `\fi`. -/
+def ifScan : Nat → List Tok → List (List Tok) → List Tok → List (List Tok) × List Tok
+  | _, cur, done, [] => ((cur.reverse :: done).reverse, [])
+  | nest, cur, done, [t] =>
+    let name := anyMacroName t
+    if name = [110, 101, 119, 105, 102] then (((t :: cur).reverse :: done).reverse, [])
+    else if startsWithIf name then (((t :: cur).reverse :: done).reverse, [])
+    else if name = [102, 105] then
+      (if nest = 0 then ((cur.reverse :: done).reverse, []) else (((t :: cur).reverse :: done).reverse, []))
+    else if nest = 0 ∧ (name = [101, 108, 115, 101] ∨ name = [111, 114]) then (([] :: cur.reverse :: done).reverse, [])
+    else (((t :: cur).reverse :: done).reverse, [])
+  | nest, cur, done, t :: u :: ts =>
+    let name := anyMacroName t
+    if name = [110, 101, 119, 105, 102] then ifScan nest (u :: t :: cur) done ts
+    else if startsWithIf name then ifScan (nest + 1) (t :: cur) done (u :: ts)
+    else if name = [102, 105] then
+      (if nest = 0 then ((cur.reverse :: done).reverse, u :: ts) else ifScan (nest - 1) (t :: cur) done (u :: ts))
+    else if nest = 0 ∧ (name = [101, 108, 115, 101] ∨ name = [111, 114]) then ifScan 0 [] (cur.reverse :: done) (u :: ts)
+    else ifScan nest (t :: cur) done (u :: ts)
+
+/-- `cases.append([])`, then `cases[which]` with `True → 0`, `False → 1` -/
+def ifChoose (cases : List (List Tok)) (b : Bool) : List Tok := (cases ++ [[]]).getD (if b then 0 else 1) []
+
 /-- resource bound of the model (like `fuel`): an input that has grown beyond this is not followed further -/
 def tooBig (s : List Tok) : Bool := s.length > 4000
 
@@ -396,7 +483,17 @@ def invoke (fx : Bool) : Nat → Name → List Tok → Env → Except Err (Optio
         | .error e => .error e
         | .ok (exp, rest') => next fx fuel ⟨exp ++ rest', env⟩
       | .unrec nm => .ok (some (.el nm, ⟨rest, env⟩))
-      | .prim .relax nm | .prim .endcsname nm => .ok (some (.el nm, ⟨rest, env⟩))
+      | .prim .relax nm | .prim .endcsname nm | .prim .inert nm => .ok (some (.el nm, ⟨rest, env⟩))
+      | .prim .ifx _ =>
+        -- `self.parse(tex)` (two `XTok`s), `tex.processIfContent(a == b)`, `return []`
+        match readXTok env rest with
+        | .error e => .error e
+        | .ok (a, r1) =>
+          match readXTok env r1 with
+          | .error e => .error e
+          | .ok (b, r2) =>
+            let sc := ifScan 0 [] [] r2
+            next fx fuel ⟨ifChoose sc.1 (ifValEq a b) ++ sc.2, env⟩
       | .prim .bgroup nm => .ok (some (.el nm, ⟨rest, push env⟩))
       | .prim .egroup nm => .ok (some (.el nm, ⟨rest, pop env⟩))
       | .prim .def_ nm =>
